@@ -59,7 +59,7 @@ import floatoracle as _fo
 SECTIONS = [None, b"", b"A", b"[A]", b"B", b"[B]", b"_none_", b"C c", b"[D", b"[A]b]", b"Ab", b"C", b"_none_2", b"Az", b"BY", b"[]", b"[", b"]", b"[ ]", b"_npMe_", b"a", b"AB", b"L" * 299 + b"1", b"L" * 299 + b"2"]      # ... names differing in letter case only, names of 300 bytes differing in the last one   # incl. names that are prefixes of other names
 KEYS = [b"k1", b"k2", b"k3", b"k4", b"key five", b"az", b"bY", b"_none_", b"k1 ", b"k2\t"]      # the last two have equal djb2 hashes
 BADKEYS = [None, b""]
-STRVALS = [b"v", b"", b"two words", b"Yes Please", b"-17", b"0x1F", b"077", b"1e3", b"true", b"NO", b"_none_",
+STRVALS = [b'  "x y"', b' "q', b"\t\"t\"", b"v", b"", b"two words", b"Yes Please", b"-17", b"0x1F", b"077", b"1e3", b"true", b"NO", b"_none_",
            b"4294967296", b"2147483648", b"-1", b"99999999999999999999999", b" 12", b"12 ", b"p-", b"g@lse", b"nan", b"inf", b"1e-320", b"1e999", b"0"]        # incl. texts whose float conversion leaves errno set
 BOOLWORDS = [b"yes", b"no", b"true", b"false", b"1", b"0", b"YES", b"No", b"tRuE", b"FALSE", b"", b"maybe", b"_none_", b"p-", None, b"10", b"2"]
 KINDS = ["string", "int", "int64", "uint", "uint64", "bool", "float", "double"]
@@ -104,7 +104,7 @@ def start_cmd(rng, o):
     if r == 2: return "newempty %d" % o
     return parse_cmd(o, b"/d/start.conf", rng.choice(START_FILES), b"=", b"#")
 
-START_FILES = [b"k1=file1\n[A]\nk2 = \"q v\" # c\nk1=a1\n[B]\nk3=3\n", b"k1=x\nk1=y\n[A]\n[E]\n[A]\nk4=Yes\n", b"# only a comment\n", b"",
+START_FILES = [b"k1 =\n    \"folded quoted\"\nk2 =\n\t\"x\n[A]\nk3 = \"  padded  \"\n", b"k1=file1\n[A]\nk2 = \"q v\" # c\nk1=a1\n[B]\nk3=3\n", b"k1=x\nk1=y\n[A]\n[E]\n[A]\nk4=Yes\n", b"# only a comment\n", b"",
                # sections only (no group-less key): the internal list of sections starts with a named one
                b"[A]\nk1=a\n[B]\nk2=b\n", b"[B]\n[A]\nk1=1\nk2=2\nk3=3\nk4=4\n[C c]\nk1=c\n", b"[A]\n", b"[A]\nk1=1\n[A]\nk2=2\n",
                # keys without any value (stored as a missing value), sections whose names hash alike
